@@ -24,10 +24,10 @@ THEOREMS = [NS + t for t in [
     'C20_once_partial', 'C20_entry_live', 'C20_cancelled_at_entry', 'C20_once_prefix', 'C20_status_partial', 'C20_validate_spec', 'C20_tagged_partial', 'C20_tagged_shared_pointer', 'C20_inconsistent_partial',
     'C20_nil_finding_partial', 'C20_error_iff_partial', 'C20_run_no_nil_partial', 'C20_index_partial', 'C20_scan_status_partial', 'C20_tagged_scan_partial',
     'C20_status_scan_partial', 'C20_emitted_consistent', 'C20_inconsistent_scan_partial', 'C20_extractor_findings_validated_witness', 'C20_no_sort_panic',
-    'consistentB_iff']] + ['Scalibr.Index.' + t for t in ['new_getSpecific', 'new_getAllOfType', 'new_getAll', 'new_has', 'new_only']]
+    'C20_gate_runs_iff', 'C20_gate_blocked', 'C20_gate_ok', 'consistentB_iff']] + ['Scalibr.Index.' + t for t in ['new_getSpecific', 'new_getAllOfType', 'new_getAll', 'new_has', 'new_only']]
 
 
-COMPARE = ['_', 'st', 'err', 'calls', 'idx', 'idxsame', 'findset', 'fkeys', 'plugset', 'plugkeys', 'pk', 'mut', 'started', 'pst']
+COMPARE = ['_', 'st', 'err', 'gerr', 'gcalls', 'gx', 'gn', 'calls', 'idx', 'idxsame', 'findset', 'fkeys', 'plugset', 'plugkeys', 'pk', 'mut', 'started', 'pst']
 
 # C08, clause "findings and statuses are emitted in the documented sorted order": Properties/C08Findings.lean
 ORDER_MODULE = 'Scalibr.Properties.C08Findings'
@@ -73,6 +73,19 @@ def details(ps, fi, fm, case=''):
         out.append('emitted (reference, extra) sequence %s; documented order %s' % (', '.join(_keys(fi.get('fkeys'))), ', '.join(_keys(fm.get('sfkeys')))))
     if 'statusorder' in ps:
         out.append('emitted status names %s; documented order %s' % ([_unhex(x) for x in fi.get('plugkeys', '-').split(',')], [_unhex(x) for x in fm.get('splugkeys', '-').split(',')]))
+    if any(p.startswith('gate-') for p in ps) and case.startswith('cscan '):
+        out.append('ScanContainer over %s — observed: status %s, reason %s, detector calls [%s], extractor calls %s, reported items %s; specification: %s' % (
+            {'l': 'a one-layer image', 'd': 'a one-layer image with a preset (decoy) scan root', 'e': 'an image without layers'}.get(case.split(' ')[1]),
+            fi.get('st'), fi.get('gerr'), fi.get('gcalls', fi.get('calls')), fi.get('gx', '?'), fi.get('gn', '?'),
+            'the phases run' if fm.get('sgate', '-') == '-' else 'nothing runs ("no chain layers found")'))
+    elif any(p.startswith('gate-') for p in ps):
+        fl = case.split(' ')[1]
+        out.append('preconditions: %s, %s, %s, %s — observed: status %s, reason %s, detector calls [%s], extractor calls %s, reported items %s; specification: %s' % (
+            {'0': 'a detector requires an extractor that is in neither list.go', '1': 'no required extractors', '2': 'two detectors require python/wheelegg', '3': 'two detectors require the standalone windows/dismpatch'}.get(fl[0]),
+            {'0': 'a standalone extractor requires Windows (capabilities: any)', '1': 'all plugin requirements met'}.get(fl[1]),
+            {'0': 'no scan root', '1': 'the case\'s roots', '2': 'at least two scan roots'}.get(fl[2]), {'0': 'no PathsToExtract', '1': 'PathsToExtract set'}.get(fl[3]),
+            fi.get('st'), fi.get('gerr'), fi.get('gcalls', fi.get('calls')), fi.get('gx', '?'), fi.get('gn', '?'),
+            'the phases run' if fm.get('sgate', '-') == '-' else 'nothing runs, the scan fails with "%s"' % fm.get('sgate')))
     if any(p.startswith('ph-') for p in ps):
         out.append('plugins started: [%s]; the specification allows exactly: [%s]; whole schedule: [%s]; scan status: %s' % (
             fi.get('started'), fm.get('sstarted'), fm.get('sall'), fi.get('st')))
@@ -118,6 +131,21 @@ def problems(case, fi, fm):
     """where the IMPLEMENTATION's answer leaves the specification (computed by the Lean driver from the case)"""
     if case.startswith('phases '):
         return phase_problems(case, fi, fm)
+    if case.startswith(('gate ', 'cscan ')) and fm.get('sgate', '-') != '-':
+        # SPEC (Spec/Detector.lean Runs / specReason): a precondition of the scan is not met -> NOTHING runs (no detector, no extractor),
+        # nothing is reported, the scan fails with the first unmet condition
+        if fi.get('_') == 'panic':
+            return ['panic']
+        out = []
+        if fi.get('gcalls', '-') != '-' or fi.get('gx', '0') != '0':
+            out.append('gate-ran')
+        if fi.get('st') != 'failed' or fi.get('gerr') != fm['sgate']:
+            out.append('gate-reason')
+        if fi.get('gn', '0') != '0':
+            out.append('gate-output')
+        return out
+    if case.startswith(('gate ', 'cscan ')) and fi.get('gerr', '-') != '-':
+        return ['gate-blocked']
     if fm.get('wf') != '1' or 'sst' not in fm:
         return []          # a detector cancelled the context (remaining detectors are skipped by design) / no spec available
     if fi.get('_') == 'panic':
@@ -166,6 +194,10 @@ TEXT = {
     'ph-notfailed': 'plugins of the schedule were never started, yet the scan does not report failure',
     'ph-failed': 'the scan reports failure although every iteration of the schedule ran',
     'panic': 'Scan panicked',
+    'gate-ran': 'a precondition of the scan is not met (required extractor unknown / plugin requirements unmet / no scan root / specific files with several roots), yet a detector or extractor RAN',
+    'gate-reason': 'a precondition of the scan is not met: the scan must fail with the FIRST unmet condition in the order enable, requirements, roots, files',
+    'gate-output': 'a scan stopped by its preconditions reports findings, packages or plugin statuses',
+    'gate-blocked': 'every precondition of the scan holds (required extractors can be enabled, requirements met, one root or no specific files), yet the scan was refused',
     'calls': 'the detectors were not each called exactly once in order',
     'index': 'the index handed to the detectors is not the filter of the extracted packages',
     'status': 'overall scan status differs from "failed iff the findings of the scan (extractor-emitted ones included) are inconsistent"',
@@ -190,7 +222,10 @@ def run(ctx):
                        'findings carried by an extractor\'s inventory (no built-in extractor emits any) are not tagged; they are validated together with the detectors\' findings (fix 89f87523)',
                        'the order of packages handed to packageindex.New is the walk order (roots, files by name, extractors by configuration order): input of this model, subject of C01/C08',
                        'Extractor.ToPURL does not panic (C14)']
-    ctx.rule = ('both tiers: advisory fields = every leaf field and every nil-vs-set pointer of detector.Advisory / Severity / CVSS, enumerated by reflection (list in advisory_fields_enumerated): '
+    ctx.rule = ('both tiers: cscan = 40 single-root scan cases run through ScanContainer as one-layer images (with and without a preset decoy scan root, which must be overwritten; every 5th with an image '
+                'without layers: nothing runs), judged by the ordinary scan oracle; gate = 12 scan cases x {a detector requires an unknown extractor | nothing required | two detectors require python/wheelegg (auto-enabled once) | they require the standalone windows/dismpatch (auto-enabled; its non-Windows build fails when run: one failed status)} x '
+                '{requirements met | a plugin needs Windows} x {no root | the case\'s roots | >= 2 roots} x {PathsToExtract unset | set}: blocked => no detector and no extractor call, nothing reported, '
+                'reason = first unmet condition; unblocked => the ordinary scan oracle (with the auto-enabled extractor\'s status and the two extra detectors); advisory fields = every leaf field and every nil-vs-set pointer of detector.Advisory / Severity / CVSS, enumerated by reflection (list in advisory_fields_enumerated): '
                 'two findings with one advisory ID, distinct objects identical except in that ONE field, both orders, across two detectors / inside one / extractor vs detector, plus all-equal controls; '
                 'order = 4 prefix-related findings dealt to 3 detectors in every way x every detector listing order (1458 scans) + 18 scans with several roots/statuses; '
                 'phases = 6 schedule shapes x (no cancellation | cancelled before the scan | one canceller at every position x it returns nil/err/ctx.Err()) x the other plugins returning nil/err/ctx.Err(). '
